@@ -221,6 +221,30 @@ func C17(rep *ev.Reporter, tier string) {
 		}
 		goodBehaviour = c17Behaviour(lib, goodKeep)
 	}
+	// a second good prefix per document whose rule NAMES are those of the document: the mutant's rules then
+	// clash with loaded rules, and a rejected text must still leave the loaded ones alone
+	type clashPrefix struct {
+		text, behaviour string
+		keep            map[string]bool
+	}
+	clash := make([]clashPrefix, len(docs))
+	for di, d := range docs {
+		names := []string{"g1", "g2"}
+		for k, ri := range recog.Recognise(d).Rules {
+			if k < 2 {
+				names[k] = ri.Name
+			}
+		}
+		t := strings.Replace(strings.Replace(c17Good, "rule g1 ", "rule "+names[0]+" ", 1), "rule g2 ", "rule "+names[1]+" ", 1)
+		lib := ast.NewKnowledgeLibrary()
+		if o := c17Build(lib, t); o.err != nil {
+			rep.Violation("harness:C17-clash-prefix-rejected", o.err.Error()+"\n"+t, nil)
+			return
+		}
+		keep := map[string]bool{names[0]: true, names[1]: true}
+		clash[di] = clashPrefix{t, c17Behaviour(lib, keep), keep}
+	}
+	var clashChecked int64
 	ParallelEach(len(jobs), func(ji int) {
 		j := jobs[ji]
 		id := fmt.Sprintf("c17/%d/%d", j.doc, ji)
@@ -304,6 +328,27 @@ func C17(rep *ev.Reporter, tier string) {
 				}
 			}
 		}
+		if tier == "thorough" || ji%5 == 0 {
+			cp := clash[j.doc]
+			lib2 := ast.NewKnowledgeLibrary()
+			c17Build(lib2, cp.text)
+			o2 := c17Build(lib2, j.m.text)
+			if o2.panicked == nil && o2.err != nil {
+				atomic.AddInt64(&clashChecked, 1)
+				var got string
+				func() {
+					defer func() {
+						if r := recover(); r != nil {
+							got = fmt.Sprintf("PANIC %v", r)
+						}
+					}()
+					got = c17Behaviour(lib2, cp.keep)
+				}()
+				if got != cp.behaviour {
+					report("C17:rejected-text-damages-loaded-rules:same-rule-names:"+c17DamageClass(got), fmt.Sprintf("the rejected resource (%s) names rules like the loaded ones; afterwards the previously loaded rules behave\n   %s\n  instead of\n   %s", j.m.class, got, cp.behaviour), id, j.m.text)
+				}
+			}
+		}
 		if ji%20000 == 0 {
 			rep.Sample(map[string]interface{}{"case": id, "mutation": j.m.class, "text": trunc(j.m.text, 300), "recogniser_accepts": v.Accept, "reason": v.Reason})
 		}
@@ -317,11 +362,12 @@ func C17(rep *ev.Reporter, tier string) {
 	rep.Coverage["recogniser_accepts"] = accepted
 	rep.Coverage["recogniser_rejects"] = rejected
 	rep.Coverage["good_then_rejected_pairs"] = pairChecked
+	rep.Coverage["good_with_same_names_then_rejected_pairs"] = clashChecked
 	if bud.Hit() {
 		rep.Exhaustive = false
 		rep.Coverage["caps_hit"] = "time budget"
 	}
-	rep.Coverage["rule"] = fmt.Sprintf("%d valid documents covering every grammar alternative; for each EVERY single mutation at EVERY token position (delete, duplicate, swap with next, replace by / insert each of %d alphabet tokens: keywords in several cases, all punctuation and operators, identifiers incl. reserved-word look-alikes, every literal class incl. out-of-range and malformed ones, illegal characters, comment openers) and character-level delete / insert / replace with %d characters (quick: at every 3rd byte). Oracle: an independent recogniser (maximal-munch lexer transcribed from the token rules + Earley recogniser over the literally transcribed parser rules + literal validity + distinct names): BuildRuleFromResource == nil iff it accepts; on acceptance the knowledge base holds exactly the declared rules (name, unquoted description, salience); a lexical/syntactic rejection is a GruleErrorReporter with >= 1 entry; never a panic. For rejected mutants (quick: every 5th) the text is also built after a good 2-rule resource: the good rules must still instantiate, execute, store and load with unchanged behaviour.", len(docs), len(c17Alphabet), len(c17Chars))
+	rep.Coverage["rule"] = fmt.Sprintf("%d valid documents covering every grammar alternative; for each EVERY single mutation at EVERY token position (delete, duplicate, swap with next, replace by / insert each of %d alphabet tokens: keywords in several cases, all punctuation and operators, identifiers incl. reserved-word look-alikes, every literal class incl. out-of-range and malformed ones, illegal characters, comment openers) and character-level delete / insert / replace with %d characters (quick: at every 3rd byte). Oracle: an independent recogniser (maximal-munch lexer transcribed from the token rules + Earley recogniser over the literally transcribed parser rules + literal validity + distinct names): BuildRuleFromResource == nil iff it accepts; on acceptance the knowledge base holds exactly the declared rules (name, unquoted description, salience); a lexical/syntactic rejection is a GruleErrorReporter with >= 1 entry; never a panic. For rejected mutants (quick: every 5th) the text is also built after a good 2-rule resource: the good rules must still instantiate, execute, store and load with unchanged behaviour; and after a good resource whose rules carry the SAME NAMES as the document's (so the text - valid or mutant - is rejected at least for the name clash): the loaded rules still behave as before.", len(docs), len(c17Alphabet), len(c17Chars))
 	rep.Assumptions = append(rep.Assumptions, "the recogniser was validated against the valid corpus and every disagreement met during development was classified by hand (DESIGN.md §5 C17)")
 }
 
